@@ -388,16 +388,42 @@ func genSliceArg(r *rng) interface{} {
 }
 
 func genElemQuery(r *rng) bson.D {
-	switch r.intn(4) {
+	switch r.intn(9) {
 	case 0:
 		return bson.D{{Key: pick(r, projKeys), Value: int32(r.intn(4))}}
 	case 1:
 		return bson.D{{Key: "$gt", Value: int32(r.intn(4))}}
 	case 2:
 		return bson.D{{Key: pick(r, projKeys), Value: bson.D{{Key: "$gte", Value: int32(r.intn(4))}}}}
+	case 3:
+		return bson.D{{Key: "$gt", Value: int32(r.intn(3))}, {Key: "$lt", Value: int32(3 + r.intn(5))}}
+	case 4:
+		return bson.D{{Key: pick(r, projKeys), Value: int32(r.intn(4))}, {Key: pick(r, projKeys), Value: bson.D{{Key: "$exists", Value: r.chance(1, 2)}}}}
+	case 5:
+		return bson.D{{Key: "$in", Value: bson.A{int32(r.intn(4)), int32(r.intn(9)), pick(r, poolStr)}}}
+	case 6:
+		return bson.D{{Key: pick(r, projKeys) + "." + pick(r, projKeys), Value: genScalar(r)}}
+	case 7:
+		return bson.D{{Key: pick(r, []string{"$and", "$or", "$foo", "$type"}), Value: bson.A{bson.D{{Key: "a", Value: int32(1)}}}}}
 	default:
 		return bson.D{}
 	}
+}
+
+// elemQuery: the root-level query equivalent to the call made by
+// projectElemMatch, Process(ctx, {item: element}, query, "item", false) (the
+// transformation used by Model/Project.v, elem_query): an operator pair
+// becomes {item: {op: v}}, a field pair becomes {"item.<key>": v}.
+func elemQuery(q bson.D) bson.D {
+	out := bson.D{}
+	for _, e := range q {
+		if isOperatorKey(e.Key) {
+			out = append(out, bson.E{Key: "item", Value: bson.D{{Key: e.Key, Value: e.Value}}})
+		} else {
+			out = append(out, bson.E{Key: "item." + e.Key, Value: e.Value})
+		}
+	}
+	return out
 }
 
 func genOperatorValue(r *rng, allowElem bool) bson.D {
@@ -1074,7 +1100,7 @@ func oracleC14(r *rng, n int, st *oracleStats) []oracleFailure {
 			continue
 		}
 		doc := genProjDoc(r, false, 0)
-		pr := genProjection(r, doc, r.chance(1, 4))
+		pr := genProjection(r, doc, r.chance(1, 2))
 		oracleC14Direct(doc, pr, st, fail, seen)
 	}
 	return fails
@@ -1186,6 +1212,7 @@ func oracleC14Direct(doc, pr bson.D, st *oracleStats, fail func(string, string, 
 	}
 	if kind == "operators" {
 		oracleC14Slice(doc, pr, res, nInc, fail, detail)
+		oracleC14ElemMatch(doc, pr, res, st, fail, detail)
 		return
 	}
 	// every leaf of the result holds the stored value at that path
@@ -1367,6 +1394,61 @@ func oracleC14Slice(doc, pr bson.D, res bsonkit.Doc, nInc int, fail func(string,
 				return
 			}
 		}
+	}
+}
+
+// oracleC14ElemMatch: projections whose only operator entry is a single
+// $elemMatch on a path unrelated to every other key: the result holds the
+// first element accepted by mongokit.Match on {item: element} with the
+// root-level form of the query, and nothing when no element is accepted.
+func oracleC14ElemMatch(doc, pr bson.D, res bsonkit.Doc, st *oracleStats, fail func(string, string, map[string]interface{}), detail func(...interface{}) map[string]interface{}) {
+	ops := operatorKeys(pr)
+	if len(ops) != 1 {
+		return
+	}
+	path := ops[0]
+	var query bson.D
+	cnt := 0
+	for _, e := range pr {
+		if e.Key == path {
+			cnt++
+			od, ok := e.Value.(bson.D)
+			if !ok || len(od) != 1 || od[0].Key != "$elemMatch" {
+				return
+			}
+			q, ok := od[0].Value.(bson.D)
+			if !ok {
+				return
+			}
+			query = q
+		} else if isPrefix(normPath(e.Key), normPath(path)) || isPrefix(normPath(path), normPath(e.Key)) {
+			return
+		}
+	}
+	if cnt != 1 || strings.Split(path, ".")[0] == "_id" {
+		return
+	}
+	arr, ok := bsonkit.Get(&doc, path).(bson.A)
+	if !ok {
+		return
+	}
+	var want interface{} = bsonkit.Missing
+	rq := elemQuery(query)
+	for _, item := range arr {
+		virtual := bson.D{{Key: "item", Value: item}}
+		ok, err := mongokit.Match(&virtual, &rq)
+		if err != nil {
+			fail("C14:elem-match-first", "$elemMatch projection succeeded although the condition fails on an element it had to test", detail("path", path, "result", enc(*res)))
+			return
+		}
+		if ok {
+			want = bson.A{item}
+			break
+		}
+	}
+	st.Dist["elemMatch:checked"]++
+	if !sameValue(bsonkit.Get(res, path), want) {
+		fail("C14:elem-match-first", "$elemMatch does not return the first matching element (or returns one when none matches)", detail("path", path, "want", enc(want), "result", enc(*res)))
 	}
 }
 
